@@ -264,6 +264,11 @@ func runC13(t *testing.T, c simrt.Chooser, o Opts) *Out {
 	if s.app() {
 		s.Workers = p.pick("workers", 1, 2, 7, 100)
 	}
+	if p.pct("exitdelay", 35) {
+		// no or hardly any exit delay: the scan is torn down the moment the last request was handled,
+		// error records of the last lines are still on their way
+		s.ExitDelay = []string{"0s", "1ns", "1us", "5ms"}[p.n("exitdelayv", 4)]
+	}
 	w := s.world()
 	var sb strings.Builder
 	for _, l := range lines {
@@ -475,6 +480,9 @@ func runC13(t *testing.T, c simrt.Chooser, o Opts) *Out {
 			app = "app"
 		}
 		sigBase = fmt.Sprintf("%s/%s/%s/%s", app, s.Mode, side, detailSig)
+		if s.ExitDelay == "0s" && !s.app() && side == "errors" && detailSig == "count" {
+			sigBase += "/exit-delay-0"
+		}
 		var badTags []string
 		_ = badTags
 		var raw []string
